@@ -525,6 +525,10 @@ func RunBatch(c *vh.Ctx, idx int, progs []*Prog, runTimeout time.Duration) *Batc
 				os.Remove(filepath.Join(lib, rel))
 			}
 		}
+		if len(res.Unbuilt)+len(res.Refused) >= len(progs) {
+			res.BuildS = time.Since(t0).Seconds()
+			return res // nothing left to build; every program is accounted for
+		}
 		os.RemoveAll(out)
 		if _, se2, ex2 := runCmd(300*time.Second, root, nil, vh.Self(), "__child", "c16compile", src, out, entry); ex2 != 0 {
 			res.Err = "re-translation failed: " + tail(se2, 600)
